@@ -212,7 +212,9 @@ def _run_batch(binary, reqs, env=None, timeout=600):
             out = out.decode("utf-8", "replace")
         rc, err = 124, "timeout"
     resps = []
-    for l in out.splitlines():
+    for l in out.split("\n"):        # not splitlines(): U+2028/U+0085 inside a JSON string are not record separators
+        if not l:
+            continue
         try:
             resps.append(json.loads(l))
         except Exception:
